@@ -149,6 +149,11 @@ def run(repo: Repo) -> Result:
                         res.add("C15-COPY", f.qual, "block_scope", f"{f.qual}: copy(block_scope={text(bs)}) shares the caller's scope with the partial", f.file, cp.lineno)
                     # disabled tags
                     dt = b.get("disabled_tags")
+                    # a fresh copy of a class attribute: list(self.x) / tuple(self.x) / [*self.x]
+                    if isinstance(dt, ast.Call) and is_name(dt.func, ("list")) and len(dt.args) == 1 or isinstance(dt, ast.Call) and is_name(dt.func, ("tuple")) and len(dt.args) == 1:
+                        dt = dt.args[0]
+                    elif isinstance(dt, (ast.List, ast.Tuple)) and len(dt.elts) == 1 and isinstance(dt.elts[0], ast.Starred):
+                        dt = dt.elts[0].value
                     names = set()
                     if isinstance(dt, (ast.List, ast.Tuple)):
                         for e in dt.elts:
